@@ -663,7 +663,10 @@ func replay(p props.Prop, path string) int {
 		return 2
 	}
 	rw := newRaceWatch()
-	r := props.Execute(p, c, true, false)
+	// a hand-written case (parameters only: no tape, no recorded violation) draws from the seed's generator;
+	// a recorded one must consume exactly its tape
+	strict := !(len(c.Tape) == 0 && c.Violation == nil)
+	r := props.Execute(p, c, strict, false)
 	if rep := rw.poll(); rep != "" {
 		r.V = append(r.V, props.Violation{Class: "data-race", Sig: p.ID() + " " + raceSig(rep), Detail: clip(rep, 6000)})
 		if r.Infra == "replay diverged from the recorded tape" {
